@@ -511,7 +511,7 @@ pub fn scenario(id: &str) -> Option<Box<dyn Scenario>> {
                 o
             },
             owns: &["c02."],
-            rule: "C01 workload plus read_next(false), batch_read(checkpoint=false) and offset-addressed batch reads (offsets at 0, entry boundaries +-1, mid-payload, block multiples, beyond the end; checkpoint true and false); every peek is immediately followed by the consuming read with the same arguments; oracle: peek == consuming twin, model cursor and counts unchanged by non-consuming calls (seen through all later reads and counts), per-file/per-block reclamation bookkeeping identical before and after each non-consuming call, offset reads return only this topic's entries (first may be a suffix) in append order; non-trivial = run contains a peek or offset read",
+            rule: "C01 workload plus read_next(false), batch_read(checkpoint=false) and offset-addressed batch reads (offsets at 0, entry boundaries +-1, mid-payload, block multiples, beyond the end; checkpoint true and false); every peek is immediately followed by the consuming read with the same arguments; 1-3 incarnations; oracle: the same history with every non-consuming call removed, executed in fresh processes, returns identical results for all remaining operations (twin run); peek == consuming twin, model cursor and counts unchanged by non-consuming calls (seen through all later reads and counts), per-file/per-block reclamation bookkeeping identical before and after each non-consuming call (a block it marks must have been passed by the consumer before the call), offset reads return only this topic's entries (first may be a suffix) in append order; non-trivial = run contains a peek or offset read",
             trigger: has_nonconsuming,
             relabel: Some((&["c01.", "c15.", "c03.no_progress"], "c02")),
             twin_without_nonconsuming: true,
@@ -649,7 +649,7 @@ impl Scenario for DiffScenario {
         "C16"
     }
     fn rule_text(&self) -> String {
-        "the same seeded plan (appends, batches, both read APIs, peeks, offset reads, counts, markers, rejected operations, clean restarts) executed once with the FD/io_uring backend and once with the mmap backend in separate processes, single client thread, background threads scheduled only when the client sleeps (identical logical schedule on both sides); oracle: identical sequence of results (Ok/Err kind, entries, counts, flags); distinct = distinct plans; non-trivial = both sides completed at least 3 operations".into()
+        "the same seeded plan (appends, batches, both read APIs, peeks, offset reads, counts, markers, rejected operations, clean restarts) executed once with the FD/io_uring backend and once with the mmap backend in separate processes, single client thread, background threads scheduled only when the client sleeps (identical logical schedule on both sides); io_uring set-up failure injected in 12% of the incarnations (fallback to positional writes); oracle: identical sequence of results (Ok/Err kind, entries, counts, flags); distinct = distinct plans; non-trivial = both sides completed at least 3 operations".into()
     }
     fn plan_for(&self, seed_r: u64) -> Option<Plan> {
         Some(gen_seq(seed_r, &diff_opts(seed_r)))
@@ -1184,7 +1184,7 @@ impl Scenario for MultiScenario {
         "C13"
     }
     fn rule_text(&self) -> String {
-        "2-3 live instances in one process (keys that sanitize differently and/or different data directories), each driven by a reclaim-style stream (bursts that fill files, consuming reads, peeks, empty polls, simulated sleeps that let the shared reclaimer complete cleanup cycles, close/reopen of one instance while the others live), operations of the instances interleaved by seed; oracle: differential against real code - each instance's projected operation sequence is re-run alone in fresh processes with the same plan and every result must be identical op by op; plus, at every remove_file event, the deleted file must hold only consumed entries; distinct = (plan, schedule hash); non-trivial = all instances completed operations".into()
+        "2-3 live instances in one process (keys that sanitize differently - incl. keys of disallowed characters only and case-different keys - and/or different data directories; a third opened through WALRUS_DATA_DIR and the *_for_key constructors), each driven by a reclaim-style stream (bursts that fill files, consuming reads, peeks, empty polls, simulated sleeps that let the shared reclaimer complete cleanup cycles, close/reopen of one instance while the others live), operations of the instances interleaved by seed; oracle: differential against real code - each instance's projected operation sequence is re-run alone in fresh processes with the same plan and every result must be identical op by op; plus, at every remove_file event, the deleted file must hold only consumed entries; distinct = (plan, schedule hash); non-trivial = all instances completed operations".into()
     }
     fn plan_for(&self, seed_r: u64) -> Option<Plan> {
         Some(gen_multi(seed_r))
@@ -1457,7 +1457,7 @@ impl Scenario for C04Scenario {
         "fault_enumeration"
     }
     fn rule_text(&self) -> String {
-        "three profiles chosen by seed. reject: histories in which every rejection cause (over 2000 entries, over the byte cap, oversized entry alone or inside a batch, topic name too long for the header, empty batch) is interleaved with successful operations, read back in the same process and after a clean restart. iofault: a workload is run fault-free to number the I/O events of its appends, then re-run with one injected failure per run at sampled events: failed directory/file creation, set_len, fsync/msync, directory fsync, failed io_uring submission, failed or short io_uring completion, failed pwrite; the rest of the workload and a restart follow. conc: concurrent readers polling while batches are appended (see C05's workload). oracle: an operation that returned an error leaves the reference model untouched and all later reads, counts and the reads after restart agree with the model; a reader never observes part of a batch; distinct = (plan, fault point, fault kind); non-trivial = an operation failed or a fault fired or client operations overlapped".into()
+        "three profiles chosen by seed. reject: histories in which every rejection cause (over 2000 entries, over the byte cap, oversized entry alone or inside a batch, topic name too long for the header, empty batch) is interleaved with successful operations, read back in the same process and after a clean restart. iofault: a workload is run fault-free to number the I/O events of its appends, then re-run with one injected failure per run at sampled events: failed directory/file creation, set_len, fsync/msync, directory fsync, failed io_uring submission, failed or short io_uring completion, failed pwrite; in 60% of the variants the client retries the failed batch (whole, a prefix, or its first entry); the rest of the workload and a restart follow. conc: concurrent readers polling while batches are appended (see C05's workload). oracle: an operation that returned an error leaves the reference model untouched and all later reads, counts and the reads after restart agree with the model; a reader never observes part of a batch; distinct = (plan, fault point, fault kind); non-trivial = an operation failed or a fault fired or client operations overlapped".into()
     }
     fn plan_for(&self, seed_r: u64) -> Option<Plan> {
         match seed_r % 4 {
